@@ -532,6 +532,8 @@ def run(pid, tier, seed, replay=None):
 
     if tier == "thorough" and pid == "C13":
         reuse_scenario(ck, w)
+    if pid == "C06":
+        wrap_scenario(ck, w, 3 if tier == "quick" else 8)
 
     if known_state.get("d4") and not known_state.get("printed"):
         ck.known("D4", D4_WHAT + " (reproduced in a recorded random walk)")
@@ -615,6 +617,25 @@ def reuse_scenario(ck, w):
                       "unmatched": pr.unmatched, "tlc": vlib.counterexample_text(pr, 2500)})
 
 
+def wrap_scenario(ck, w, conns):
+    """32-bit sequence wrap on the real stack: the connector host's ISN counter is burnt (65 277 cancelled
+    connects, SYNs discarded by the wire) so that the next connections start < 64 KiB below 2^32, then each
+    moves 66 000 bytes across the wrap on a lossless, undelayed wire. PropSpec verdict (prefix, EOF, no abort,
+    no stall); not in the model (DESIGN section 9)."""
+    c = consts(MaxP=1, Mss=500, SendCap=2000, RecvCap=2000, Backlog=2, RetxT=3, RetxMax=2, PremD=1, PremAge=0)
+    tp = os.path.join(w, "wrap.ndjson")
+    args = ["wrap", f"conns={conns}", "bytes=66000"] + harness_args(c)
+    out = vlib.run_driver("ktcp", args + [f"out={tp}"], timeout=600)
+    pr = run_prop_trace("C06", tp, c, "C06_wrap")
+    ck.add_tlc(pr, "trace_wrap")
+    ck.traces += conns
+    ck.evaluations += count_lines(tp)
+    log(f"[C06] wrap: {out.strip()} -> prop {'ok' if not rejected(pr) else 'REJECTED'}")
+    if rejected(pr):
+        ck.violation({"kind": "wrap", "property": "C06", "args": args, "consts": jsonable(c), "violated_clause": pr.violated,
+                      "unmatched": pr.unmatched, "tlc": vlib.counterexample_text(pr, 2500)})
+
+
 def do_replay(ck, path):
     rp = json.load(open(path))
     pid = ck.pid
@@ -637,6 +658,8 @@ def do_replay(ck, path):
         ck.traces = ck.evaluations = 1
         if okp:
             log(f"[{pid}] replay: trace accepted by the PropSpec" + (" (known D4 family reproduced)" if known_state.get("d4") else ""))
+    elif rp["kind"] == "wrap":
+        wrap_scenario(ck, w, 3)
     else:
         reuse_scenario(ck, w)
     ck.states = max(ck.states, 1)
